@@ -370,7 +370,9 @@ impl Chitchat {
             return;
         }
 
-        if max_version < node_state.last_gc_version() {
+        if max_version < node_state.last_gc_version()
+            || last_gc_version < node_state.last_gc_version()
+        {
             // It is possible to have gc_version > max_version when we are catching up.
             // If we reach this point, we probably went through a reset via chitchat gossip.
             //
@@ -410,6 +412,11 @@ impl Chitchat {
             node_state.remove_key_value_internal(&key);
         }
         node_state.set_last_gc_version(last_gc_version);
+        // The new state is complete up to `max_version`, even if its most recent key-values have
+        // been garbage collected since (or if there is no key-value at all).
+        if node_state.max_version() < max_version {
+            node_state.set_max_version(max_version);
+        }
 
         let monotonic_property_after = node_state.monotonic_property();
 
